@@ -21,11 +21,12 @@ Register(n, req) == /\ reg' = [reg EXCEPT ![n] = req] /\ ros' = ros
                     /\ Out("register", n, None, req, "none", Zero, TRUE, TRUE)
 (* expression pathway: "n(1)" auto-detected or forced onto the tool pathway; "arith" = the call sits inside an arithmetic
    expression ("1 + n(1)", math pathway), "inner" = it is an argument of an allow-listed function ("abs(n(1))"): tools are
-   only reachable as the outermost call of the tool pathway, so these forms never run a tool body *)
+   only reachable as the outermost call of the tool pathway, so these forms never run a tool body; "upper" = the registered name in another case
+   ("N(1)"): names are exact, so it is an unknown function *)
 Metabolize(n, mode) ==
   /\ reg' = reg
   /\ IF ros >= RosMax THEN ros' = ros /\ Out("metabolize", n, None, {}, mode, Zero, FALSE, TRUE)          \* latched
-     ELSE IF mode \in {"arith", "inner"} THEN ros' = Bump(1) /\ Out("metabolize", n, None, {}, mode, Zero, FALSE, TRUE)
+     ELSE IF mode \in {"arith", "inner", "upper"} THEN ros' = Bump(1) /\ Out("metabolize", n, None, {}, mode, Zero, FALSE, TRUE)
      ELSE IF CapOK(n) THEN ros' = ros /\ Out("metabolize", n, None, {}, mode, [Zero EXCEPT ![n] = 1], TRUE, TRUE)
      ELSE ros' = Bump(1) /\ Out("metabolize", n, None, {}, mode, Zero, FALSE, TRUE)                      \* unknown name or refused
 (* "outer(inner(1))": the outer tool is checked first, then its argument fails to evaluate (a tool is not an allow-listed
@@ -39,6 +40,8 @@ CallRan(n) == IF n # None /\ CapOK(n) THEN 1 ELSE 0
 CallFails(n) == n # None /\ reg[n] # NotReg /\ ~CapOK(n)         \* refusal (counts as damage); unknown names do not
 ToolCall(n) == /\ reg' = reg /\ ros' = (IF CallFails(n) THEN Bump(1) ELSE ros)
                /\ Out("tool_call", n, None, {}, "none", [Zero EXCEPT ![n] = CallRan(n)], CapOK(n), TRUE)
+ToolCallOtherCase(n) == /\ reg' = reg /\ ros' = ros                      \* the name in another case: an unknown tool, nothing runs
+                        /\ Out("tool_call", n, None, {}, "upper", Zero, FALSE, TRUE)
 (* LLM tool loop: the provider asks for n1 then n2 in one round (n2 may be None), then answers *)
 ToolLoop(n1, n2) ==
   /\ reg' = reg
@@ -47,7 +50,8 @@ ToolLoop(n1, n2) ==
          [n \in Tools |-> (IF n = n1 THEN CallRan(n1) ELSE 0) + (IF n = n2 THEN CallRan(n2) ELSE 0)], CapOK(n1), n2 = None \/ CapOK(n2))
 Repair == reg' = reg /\ ros' = 0 /\ Out("repair", None, None, {}, "none", Zero, TRUE, TRUE)
 Next == \/ \E n \in Tools : \/ \E req \in SUBSET Caps : Register(n, req)
-                            \/ \E m \in {"auto", "forced", "arith", "inner"} : Metabolize(n, m)
+                            \/ \E m \in {"auto", "forced", "arith", "inner", "upper"} : Metabolize(n, m)
+                            \/ ToolCallOtherCase(n)
                             \/ \E n2 \in Tools : MetabolizeNested(n2, n)
                             \/ ToolCall(n)
                             \/ \E n2 \in Tools \cup {None} : ToolLoop(n, n2)
